@@ -191,6 +191,9 @@ class StandardFuncs(SnowfakeryPlugin):
                 start_date, end_date, tzinfo=timezone
             )
             # Faker computes with whole seconds: keep the result inside the bounds
+            if rc.tzinfo is None:  # timezone: False -> Faker returns a naive UTC value
+                start_date = start_date.replace(tzinfo=None)
+                end_date = end_date.replace(tzinfo=None)
             return min(max(rc, start_date), end_date)
 
         def i18n_fake(self, locale: str, fake: str):
